@@ -48,6 +48,10 @@ type Converter struct {
 	Methods  []*Method
 
 	Location string
+
+	// outputPackagePreset is set while the output package of a variables
+	// block still is the one preset for its default output file.
+	outputPackagePreset bool
 }
 
 func (c *Converter) typeForMethod() types.Type {
@@ -163,6 +167,7 @@ func initConverter(loader *pkgload.PackageLoader, rawConverter *RawConverter) (*
 	c.OutputFile = defaultOutputFile(rawConverter.FileName)
 	c.OutputPackageName = rawConverter.PackageName
 	c.OutputPackagePath = rawConverter.PackagePath
+	c.outputPackagePreset = true
 	return c, nil
 }
 
@@ -190,6 +195,14 @@ func parseConverterLine(ctx *context, c *Converter, value string) (err error) {
 		c.OutputRaw = append(c.OutputRaw, rest)
 	case configOutputFile:
 		c.OutputFile, err = parse.File(ctx.WorkDir, rest)
+		if c.outputPackagePreset {
+			// the package of a variables block was preset for its default
+			// output file, the package of another file is inferred from its
+			// location (unless output:package says otherwise).
+			c.outputPackagePreset = false
+			c.OutputPackageName = ""
+			c.OutputPackagePath = ""
+		}
 	case "output:format":
 		if len(c.Extend) != 0 {
 			return fmt.Errorf("Cannot change output:format after extend functions have been added.\nMove the extend below the output:format setting.")
@@ -207,6 +220,7 @@ func parseConverterLine(ctx *context, c *Converter, value string) (err error) {
 			return fmt.Errorf("unsupported format for goverter:converter")
 		}
 	case "output:package":
+		c.outputPackagePreset = false
 		c.OutputPackageName = ""
 		var pkg string
 		pkg, err = parse.String(rest)
